@@ -115,3 +115,208 @@ Example csv_name_examples :
   norm_csv_name "Channel 0" = "Channel_0" /\ norm_csv_name "D 7[3]" = "D_7<3>" /\
   norm_csv_name "bus [7:0]" = "bus_" /\ norm_csv_name "x(2)[3:0]" = "x<2>".
 Proof. vm_compute. repeat split; reflexivity. Qed.
+
+(** * the table walk: every cell lands in the column of its header, rows in order *)
+From WalModel.proofs Require Import VcdProofs ListProofs.
+
+(** the cells of one row that belong to column [h]: positions whose header is [h], the time column skipped *)
+Fixpoint picked (cells header : list string) (x p : nat) (h : string) : list string :=
+  match cells, header with
+  | c :: cr, h' :: hr =>
+      if Nat.eqb x p then picked cr hr (S x) p h
+      else (if String.eqb h h' then [c] else []) +++ picked cr hr (S x) p h
+  | _, _ => []
+  end.
+
+Lemma row_cells_spec p : forall cells header x data,
+  List.length cells = List.length header ->
+  (forall k h, nth_error header k = Some h -> (x + k)%nat <> p -> amem h data = true) ->
+  exists data', csv_row_cells cells header x p data = Some data' /\ map fst data' = map fst data /\
+    forall h, alookup h data' = option_map (fun col => col +++ picked cells header x p h) (alookup h data).
+Proof.
+  induction cells as [|c cr IH]; intros header x data Hlen Hkeys.
+  - exists data. split; [reflexivity|]. split; [reflexivity|]. intros h. cbn [picked].
+    destruct (alookup h data); cbn [option_map]; [rewrite app_nil_r|]; reflexivity.
+  - destruct header as [|h' hr]; [discriminate|]. cbn [csv_row_cells picked]. injection Hlen as Hlen.
+    destruct (Nat.eqb x p) eqn:Ex.
+    + apply (IH hr (S x) data Hlen). intros k h Hk Hne. apply (Hkeys (S k) h Hk). lia.
+    + apply Nat.eqb_neq in Ex.
+      assert (Hm : amem h' data = true) by (apply (Hkeys O h' eq_refl); lia).
+      unfold amem in Hm. destruct (alookup h' data) as [col|] eqn:El; [|discriminate].
+      destruct (IH hr (S x) (aset h' (col +++ [c]) data) Hlen) as (data' & Hr & Hk' & Hl').
+      { intros k h Hk Hne. unfold amem. destruct (String.eqb_spec h h') as [->|Hd].
+        - rewrite alookup_aset_same. reflexivity.
+        - rewrite alookup_aset_other by (apply String.eqb_neq; exact Hd).
+          assert (X : amem h data = true) by (apply (Hkeys (S k) h Hk); lia). exact X. }
+      exists data'. split; [exact Hr|]. split.
+      * rewrite Hk'. apply keys_aset_old. unfold amem. rewrite El. reflexivity.
+      * intros h. rewrite Hl'. destruct (String.eqb_spec h h') as [->|Hd].
+        -- rewrite alookup_aset_same, El. cbn [option_map]. rewrite <- app_assoc. reflexivity.
+        -- rewrite alookup_aset_other by (apply String.eqb_neq; exact Hd). reflexivity.
+Qed.
+
+Theorem csv_rows_spec p header : forall rows data ts,
+  (forall row, In row rows -> List.length row = List.length header /\ exists cell t, nth_error row p = Some cell /\ csv_time cell = Some t) ->
+  (forall k h, nth_error header k = Some h -> k <> p -> amem h data = true) ->
+  exists data' times, csv_rows rows header p data ts = Some (data', rev ts +++ times) /\
+    map (fun row => match nth_error row p with Some cell => csv_time cell | None => None end) rows = map Some times /\
+    map fst data' = map fst data /\
+    forall h, alookup h data' =
+              option_map (fun col => col +++ flat_map (fun row => picked row header O p h) rows) (alookup h data).
+Proof.
+  induction rows as [|row rows IH]; intros data ts Hrows Hkeys.
+  - exists data, []. cbn [csv_rows map flat_map]. rewrite app_nil_r. repeat split; try reflexivity.
+    intros h. destruct (alookup h data); cbn [option_map]; [rewrite app_nil_r|]; reflexivity.
+  - destruct (Hrows row (or_introl eq_refl)) as (Hlen & cell & t & Hcell & Ht).
+    cbn [csv_rows]. rewrite Hcell, Ht.
+    destruct (row_cells_spec p row header O data Hlen) as (d1 & Hr & Hk1 & Hl1).
+    { intros k h Hk Hne. apply (Hkeys k h Hk). lia. }
+    rewrite Hr.
+    destruct (IH d1 (t :: ts)) as (d2 & times & Hrs & Htimes & Hk2 & Hl2).
+    { intros r Hin. apply Hrows. right. exact Hin. }
+    { intros k h Hk Hne. unfold amem. rewrite Hl1. specialize (Hkeys k h Hk Hne). unfold amem in Hkeys.
+      destruct (alookup h data); [reflexivity|discriminate]. }
+    exists d2, (t :: times). split; [|split; [|split]].
+    + rewrite Hrs. cbn [rev]. rewrite <- app_assoc. reflexivity.
+    + cbn [map]. rewrite Hcell, Ht, Htimes. reflexivity.
+    + congruence.
+    + intros h. rewrite Hl2, Hl1. cbn [flat_map]. destruct (alookup h data); cbn [option_map]; [rewrite <- app_assoc|]; reflexivity.
+Qed.
+
+(** with distinct column names, column k receives exactly the k-th cell of every row *)
+Lemma picked_unique p : forall cells header x k h,
+  List.length cells = List.length header ->
+  nth_error header k = Some h -> (x + k)%nat <> p ->
+  (forall j h', nth_error header j = Some h' -> (x + j)%nat <> p -> j <> k -> h' <> h) ->
+  picked cells header x p h = match nth_error cells k with Some c => [c] | None => [] end.
+Proof.
+  induction cells as [|c cr IH]; intros header x k h Hlen Hk Hne Huniq.
+  - destruct header; [|discriminate]. destruct k; discriminate.
+  - destruct header as [|h' hr]; [discriminate|]. injection Hlen as Hlen. cbn [picked].
+    destruct k as [|k].
+    + injection Hk as ->. assert (Ex : Nat.eqb x p = false) by (apply Nat.eqb_neq; lia). rewrite Ex, String.eqb_refl.
+      cbn [nth_error app]. f_equal.
+      assert (G : forall cs hs y, List.length cs = List.length hs -> (forall j h', nth_error hs j = Some h' -> (y + j)%nat <> p -> h' <> h) -> picked cs hs y p h = []).
+      { induction cs as [|c2 cs IHc]; intros hs y Hl Hu; [reflexivity|]. destruct hs as [|h2 hs]; [discriminate|].
+        injection Hl as Hl. cbn [picked]. destruct (Nat.eqb y p) eqn:Ey.
+        - apply IHc; [exact Hl|]. intros j h'' Hj Hn. apply (Hu (S j) h'' Hj). lia.
+        - apply Nat.eqb_neq in Ey. assert (h2 <> h) by (apply (Hu O h2 eq_refl); lia).
+          destruct (String.eqb_spec h h2); [congruence|]. cbn [app]. apply IHc; [exact Hl|].
+          intros j h'' Hj Hn. apply (Hu (S j) h'' Hj). lia. }
+      apply G; [exact Hlen|]. intros j h2 Hj Hn. apply (Huniq (S j) h2 Hj); lia.
+    + cbn [nth_error] in Hk |- *. destruct (Nat.eqb x p) eqn:Ex.
+      * apply (IH hr (S x) k h Hlen Hk); [lia|]. intros j h2 Hj Hn Hjk. apply (Huniq (S j) h2 Hj); lia.
+      * apply Nat.eqb_neq in Ex. assert (h' <> h) by (apply (Huniq O h' eq_refl); lia).
+        destruct (String.eqb_spec h h'); [congruence|]. cbn [app].
+        apply (IH hr (S x) k h Hlen Hk); [lia|]. intros j h'' Hj Hn Hjk. apply (Huniq (S j) h'' Hj); lia.
+Qed.
+
+Definition empty_cols (raw : list string) : list (string * list string) :=
+  fold_left (fun acc nm => aset nm [] acc) raw [].
+
+Lemma empty_cols_lookup raw : forall acc h,
+  (forall k col, alookup k acc = Some col -> col = []) ->
+  (In h raw \/ amem h acc = true) ->
+  alookup h (fold_left (fun acc nm => aset nm ([] : list string) acc) raw acc) = Some [].
+Proof.
+  induction raw as [|nm raw IH]; intros acc h Hall Hin; cbn [fold_left].
+  - destruct Hin as [[]|Hm]. unfold amem in Hm. destruct (alookup h acc) as [col|] eqn:E; [|discriminate].
+    rewrite (Hall _ _ E). reflexivity.
+  - apply IH.
+    + intros k col. destruct (String.eqb_spec k nm) as [->|Hd].
+      * rewrite alookup_aset_same. intros E. injection E as <-. reflexivity.
+      * rewrite alookup_aset_other by (apply String.eqb_neq; exact Hd). apply Hall.
+    + destruct Hin as [[->|Hin]|Hm].
+      * right. unfold amem. rewrite alookup_aset_same. reflexivity.
+      * left. exact Hin.
+      * right. unfold amem in *. destruct (String.eqb_spec h nm) as [->|Hd].
+        -- rewrite alookup_aset_same. reflexivity.
+        -- rewrite alookup_aset_other by (apply String.eqb_neq; exact Hd). exact Hm.
+Qed.
+
+Lemma picked_rows p header rows k h :
+  (forall row, In row rows -> List.length row = List.length header) ->
+  nth_error header k = Some h -> k <> p ->
+  (forall j h', nth_error header j = Some h' -> j <> p -> j <> k -> h' <> h) ->
+  flat_map (fun row => picked row header O p h) rows =
+  flat_map (fun row => match nth_error row k with Some c => [c] | None => [] end) rows.
+Proof.
+  intros Hlen Hk Hne Huniq. induction rows as [|row rows IH]; [reflexivity|]. cbn [flat_map].
+  rewrite (picked_unique p row header O k h (Hlen row (or_introl eq_refl)) Hk); [|lia|].
+  - f_equal. apply IH. intros r Hin. apply Hlen. right. exact Hin.
+  - intros j h' Hj Hn Hjk. apply (Huniq j h' Hj); [lia|exact Hjk].
+Qed.
+
+(** the table walk as a whole: timestamps are the converted time cells in row order, and the column of every
+    uniquely named non-time header holds that header's cell of every row, in row order *)
+Theorem csv_table_walk p header raw rows :
+  (forall row, In row rows -> List.length row = List.length header /\
+                              exists cell t, nth_error row p = Some cell /\ csv_time cell = Some t) ->
+  (forall k h, nth_error header k = Some h -> k <> p -> In h raw) ->
+  exists data times,
+    csv_rows rows header p (empty_cols raw) [] = Some (data, times) /\
+    map (fun row => match nth_error row p with Some cell => csv_time cell | None => None end) rows = map Some times /\
+    forall k h, nth_error header k = Some h -> k <> p ->
+      (forall j h', nth_error header j = Some h' -> j <> p -> j <> k -> h' <> h) ->
+      alookup h data = Some (flat_map (fun row => match nth_error row k with Some c => [c] | None => [] end) rows).
+Proof.
+  intros Hrows Hraw.
+  assert (Hkeys : forall k h, nth_error header k = Some h -> k <> p -> amem h (empty_cols raw) = true).
+  { intros k h Hk Hne. unfold amem, empty_cols. rewrite (empty_cols_lookup raw [] h); [reflexivity|intros ? ? E; discriminate E|].
+    left. apply (Hraw k h Hk Hne). }
+  destruct (csv_rows_spec p header rows (empty_cols raw) [] Hrows Hkeys) as (data & times & Hr & Ht & _ & Hl).
+  exists data, times. cbn [rev app] in Hr. split; [exact Hr|]. split; [exact Ht|].
+  intros k h Hk Hne Huniq. rewrite Hl. unfold empty_cols.
+  rewrite (empty_cols_lookup raw [] h); [|intros ? ? E; discriminate E|left; apply (Hraw k h Hk Hne)].
+  cbn [option_map app]. f_equal.
+  apply (picked_rows p header rows k h); [intros row Hin; apply (Hrows row Hin)|exact Hk|exact Hne|exact Huniq].
+Qed.
+
+(** * the header walk: every non-time column is renamed in place, signals = normalised names in order *)
+Definition nontime (v : string) : bool := negb (String.eqb v time_header).
+Definition ren (h : string) : string := if String.eqb h time_header then h else norm_csv_name h.
+
+(** each non-time header differs from the already normalised names to its left (then [header.index] finds
+    the column itself) *)
+Fixpoint ok_from (pre rest : list string) : Prop :=
+  match rest with
+  | [] => True
+  | h :: r => (h <> time_header -> ~ In h (map ren pre)) /\ ok_from (pre +++ [h]) r
+  end.
+
+Lemma index_of_app_notin x l1 l2 : ~ In x l1 -> index_of x (l1 +++ x :: l2) = Some (List.length l1).
+Proof.
+  induction l1 as [|y l1 IH]; intros Hn; cbn [app index_of List.length].
+  - rewrite String.eqb_refl. reflexivity.
+  - destruct (String.eqb_spec x y) as [->|_]; [exfalso; apply Hn; left; reflexivity|].
+    rewrite IH; [reflexivity|]. intros H. apply Hn. right. exact H.
+Qed.
+
+Lemma replace_nth_app {A} (l1 : list A) x y l2 : replace_nth (List.length l1) y (l1 +++ x :: l2) = l1 +++ y :: l2.
+Proof. induction l1 as [|z l1 IH]; cbn [app List.length replace_nth]; [reflexivity|rewrite IH; reflexivity]. Qed.
+
+Lemma csv_names_walk : forall rest pre raw, ok_from pre rest ->
+  csv_names (filter nontime rest) (map ren pre +++ rest) raw =
+  Some (map ren (pre +++ rest), rev raw +++ map norm_csv_name (filter nontime rest)).
+Proof.
+  induction rest as [|h rest IH]; intros pre raw Hok.
+  - cbn [filter csv_names map]. rewrite !app_nil_r. reflexivity.
+  - destruct Hok as [Hh Hok]. cbn [filter].
+    replace (map ren pre +++ h :: rest) with (map ren pre +++ [h] +++ rest) by reflexivity.
+    destruct (String.eqb_spec h time_header) as [E|Hne].
+    + assert (N : nontime h = false) by (unfold nontime; rewrite E, String.eqb_refl; reflexivity). rewrite N.
+      subst h. specialize (IH (pre +++ [time_header]) raw Hok). rewrite map_app in IH. cbn [map] in IH.
+      assert (R : ren time_header = time_header) by (unfold ren; rewrite String.eqb_refl; reflexivity).
+      rewrite R in IH. rewrite <- app_assoc in IH. rewrite IH. rewrite <- app_assoc. reflexivity.
+    + assert (N : nontime h = true) by (unfold nontime; destruct (String.eqb_spec h time_header); [contradiction|reflexivity]).
+      rewrite N. cbn [csv_names]. cbn [app]. rewrite (index_of_app_notin h (map ren pre) rest (Hh Hne)).
+      rewrite replace_nth_app.
+      specialize (IH (pre +++ [h]) (norm_csv_name h :: raw) Hok). rewrite map_app in IH. cbn [map] in IH.
+      unfold ren at 2 in IH. destruct (String.eqb_spec h time_header) as [|_]; [contradiction|].
+      rewrite <- app_assoc in IH. cbn [app] in IH. rewrite IH. cbn [rev map]. rewrite <- !app_assoc. reflexivity.
+Qed.
+
+Theorem csv_header_walk header : ok_from [] header ->
+  csv_names (filter nontime header) header [] =
+  Some (map ren header, map norm_csv_name (filter nontime header)).
+Proof. intros H. apply (csv_names_walk header [] [] H). Qed.
